@@ -29,6 +29,13 @@ def run(tier, chk):
         total += common.run_vectors(chk, wd, "C02_Gen", gen_cfg=cfg, workers=8, label=f"gen{sh}", sig_of=sig)
     nr = common.run_random(chk, wd, "C02", "C02_Trace", 1500 if tier == "quick" else 20000, shards=1 if tier == "quick" else 8,
                            sig_of=lambda b: "frames:random")
+    # (ii) the same rules at connection level: request streams of a real server / client incl. truncated frames
+    #      (observing the error code that reaches the transport), judged by RequestRecv / C03_Trace
+    scns = common.gen_scenarios(chk, wd, "C03_Gen", cfg_text="SPECIFICATION Spec\nCONSTANT N = 3\nINVARIANT Emit\nCHECK_DEADLOCK FALSE\n", workers=8, label="cgen")
+    scns = [s for s in scns if {"PD", "PX", "Un", "U0", "H2"} & set(s.get("letters", []))]
+    common.run_sim(chk, wd, scns, "C03_Trace", label="csim", shards=12,
+                   sig_of=lambda s, t, w: "frames:connection-level:" + ("truncated" if {"PD", "PX"} & set(s.get("letters", [])) else "unknown-or-reserved"))
+    total += len(scns)
     chk.exhaustive = True
     chk.distinct_nontrivial = total + nr
     chk.rule = ("wires = up to 2 frame templates (every known type, H2-reserved, reserved and unknown types; 1/2/4-byte length forms; payload exact, "
